@@ -1,5 +1,6 @@
 (* Cisco/Tunnel.v — ASA tunnel-groups (named by the peer address, IPv4 or IPv6) with their
-   attribute sections, the group-policies they reference and the vpn-filter ACLs of those:
+   attribute sections, users (username NAME nopassword / attributes), the group-policies both reference,
+   and the ACLs (vpn-filter, split-tunnel-network-list) and address pools (ip local pool) of those:
    device state, the commands drc emits for them, strict checks (a referenced object must
    exist, a referenced object cannot be removed, a line / section / object to be removed must
    be there), the equivalence oracle (references expanded, so generated names do not matter)
@@ -10,18 +11,22 @@ Import ListNotations.
 Open Scope string_scope.
 
 Definition block := list words.                       (* attribute lines of a sub-mode, a set *)
-Inductive tmode := TTop | TGp (n : string) | TTg (n sec : string).
+Inductive tmode := TTop | TGp (n : string) | TTg (n sec : string) | TUser (n : string).
 Record tdev := {
-  td_acls : list (string * list words);                       (* vpn-filter ACL -> lines (words behind the name) *)
+  td_acls : list (string * list words);                       (* ACL -> lines (words behind the name) *)
+  td_pools : list (string * words);                           (* ip local pool -> definition *)
   td_gps : list (string * block);                             (* group-policy -> attribute lines *)
   td_tgs : list (string * (string * list (string * block)));  (* tunnel-group -> (type, sections) *)
+  td_users : list (string * block);                           (* username -> attribute lines *)
   td_mode : tmode }.
 
 Inductive tres := TOk (d : tdev) | TRefuse (why : nat).
 (* 1 unknown object referenced, 2 object still referenced, 3 no such object / section / line, 6 command not understood *)
 
-Definition tupd (d : tdev) acls gps tgs mode : tdev := {| td_acls := acls; td_gps := gps; td_tgs := tgs; td_mode := mode |}.
-Definition ttop (d : tdev) : tdev := tupd d (td_acls d) (td_gps d) (td_tgs d) TTop.
+Definition tupd (d : tdev) acls pools gps tgs users mode : tdev :=
+  {| td_acls := acls; td_pools := pools; td_gps := gps; td_tgs := tgs; td_users := users; td_mode := mode |}.
+Definition tmode_set (d : tdev) (m : tmode) : tdev := tupd d (td_acls d) (td_pools d) (td_gps d) (td_tgs d) (td_users d) m.
+Definition ttop (d : tdev) : tdev := tmode_set d TTop.
 
 Definition has_line (l : words) (b : block) : bool := existsb (words_eqb l) b.
 Fixpoint drop_line (l : words) (b : block) : block :=
@@ -38,11 +43,27 @@ Definition line_key (l : words) : words :=
 Definition add_line (l : words) (b : block) : block :=
   (filter (fun x => negb (words_eqb (line_key x) (line_key l))) b ++ [l])%list.
 
-Definition gp_refs_acl (a : string) (d : tdev) : bool :=
-  existsb (fun g : string * block => has_line ["vpn-filter"; "value"; a] (snd g)) (td_gps d).
-Definition tg_refs_gp (g : string) (d : tdev) : bool :=
-  existsb (fun t : string * (string * list (string * block)) =>
-             existsb (fun s : string * block => has_line ["default-group-policy"; g] (snd s)) (snd (snd t))) (td_tgs d).
+(* what an attribute line refers to *)
+Inductive rkind := RAcl | RPool | RGp.
+Definition rkind_eqb (a b : rkind) : bool := match a, b with RAcl, RAcl | RPool, RPool | RGp, RGp => true | _, _ => false end.
+Definition line_ref (w : words) : option (rkind * string) :=
+  match w with
+  | ["vpn-filter"; "value"; a] => Some (RAcl, a)
+  | ["split-tunnel-network-list"; "value"; a] => Some (RAcl, a)
+  | ["address-pools"; "value"; p] => Some (RPool, p)
+  | ["default-group-policy"; g] => Some (RGp, g)
+  | ["vpn-group-policy"; g] => Some (RGp, g)
+  | _ => None
+  end.
+Definition is_no (w : words) : option words := match w with "no" :: l => Some l | _ => None end.
+
+Definition refers (k : rkind) (n : string) (l : words) : bool :=
+  match line_ref l with Some (k', n') => (rkind_eqb k k' && String.eqb n n')%bool | None => false end.
+Definition all_blocks (d : tdev) : list block :=
+  (map snd (td_gps d) ++ flat_map (fun t : string * (string * list (string * block)) => map snd (snd (snd t))) (td_tgs d) ++ map snd (td_users d))%list.
+Definition referenced (k : rkind) (n : string) (d : tdev) : bool := existsb (existsb (refers k n)) (all_blocks d).
+Definition exists_obj (k : rkind) (n : string) (d : tdev) : bool :=
+  match k with RAcl => vhas n (td_acls d) | RPool => vhas n (td_pools d) | RGp => vhas n (td_gps d) end.
 
 Definition is_section (s : string) : bool :=
   (String.eqb s "general-attributes" || String.eqb s "ipsec-attributes" || String.eqb s "webvpn-attributes")%bool.
@@ -63,43 +84,42 @@ Definition nat_of (s : string) : option nat := match parse_dec s with Some n => 
 
 Definition acl_of (n : string) (d : tdev) : list words := match vlookup n (td_acls d) with Some l => l | None => [] end.
 Definition set_acl (n : string) (l : list words) (d : tdev) : tdev :=
-  tupd d (match l with [] => vremove n (td_acls d) | _ => vset n l (td_acls d) end) (td_gps d) (td_tgs d) TTop.
+  tupd d (match l with [] => vremove n (td_acls d) | _ => vset n l (td_acls d) end) (td_pools d) (td_gps d) (td_tgs d) (td_users d) TTop.
+
+(* the block of the current sub-mode and how to store it back *)
+Definition cur_block (d : tdev) : option block :=
+  match td_mode d with
+  | TTop => None
+  | TGp g => vlookup g (td_gps d)
+  | TUser u => vlookup u (td_users d)
+  | TTg t sec => match vlookup t (td_tgs d) with
+                 | Some (_, secs) => Some (match vlookup sec secs with Some b => b | None => [] end)
+                 | None => None
+                 end
+  end.
+Definition put_block (d : tdev) (b : block) : tdev :=
+  match td_mode d with
+  | TTop => d
+  | TGp g => tupd d (td_acls d) (td_pools d) (vset g b (td_gps d)) (td_tgs d) (td_users d) (td_mode d)
+  | TUser u => tupd d (td_acls d) (td_pools d) (td_gps d) (td_tgs d) (vset u b (td_users d)) (td_mode d)
+  | TTg t sec => match vlookup t (td_tgs d) with
+                 | Some (ty, secs) => tupd d (td_acls d) (td_pools d) (td_gps d) (vset t (ty, vset sec b secs) (td_tgs d)) (td_users d) (td_mode d)
+                 | None => d
+                 end
+  end.
 
 (* a line entered in a sub-mode *)
-Definition is_no (w : words) : option words := match w with "no" :: l => Some l | _ => None end.
-Definition filter_ref (w : words) : option string := match w with ["vpn-filter"; "value"; a] => Some a | _ => None end.
-Definition policy_ref (w : words) : option string := match w with ["default-group-policy"; g] => Some g | _ => None end.
-
 Definition tsub (d : tdev) (w : words) : tres :=
-  match td_mode d with
-  | TTop => TRefuse 6
-  | TGp g =>
-      match vlookup g (td_gps d) with
-      | None => TRefuse 3
-      | Some b =>
-          let put b' := TOk (tupd d (td_acls d) (vset g b' (td_gps d)) (td_tgs d) (TGp g)) in
-          match is_no w with
-          | Some l => if has_line l b then put (drop_line l b) else TRefuse 3
-          | None =>
-              match filter_ref w with
-              | Some a => if vhas a (td_acls d) then put (add_line w b) else TRefuse 1
-              | None => put (add_line w b)
-              end
-          end
-      end
-  | TTg t sec =>
-      match vlookup t (td_tgs d) with
-      | None => TRefuse 3
-      | Some (ty, secs) =>
-          let b := match vlookup sec secs with Some b => b | None => [] end in
-          let put b' := TOk (tupd d (td_acls d) (td_gps d) (vset t (ty, vset sec b' secs) (td_tgs d)) (TTg t sec)) in
-          match is_no w with
-          | Some l => if has_line l b then put (drop_line l b) else TRefuse 3
-          | None =>
-              match policy_ref w with
-              | Some g => if vhas g (td_gps d) then put (add_line w b) else TRefuse 1
-              | None => put (add_line w b)
-              end
+  match td_mode d, cur_block d with
+  | TTop, _ => TRefuse 6
+  | _, None => TRefuse 3
+  | _, Some b =>
+      match is_no w with
+      | Some l => if has_line l b then TOk (put_block d (drop_line l b)) else TRefuse 3
+      | None =>
+          match line_ref w with
+          | Some (k, n) => if exists_obj k n d then TOk (put_block d (add_line w b)) else TRefuse 1
+          | None => TOk (put_block d (add_line w b))
           end
       end
   end.
@@ -117,7 +137,7 @@ Definition texec (d : tdev) (w : words) : tres :=
       match nat_of k with
       | Some (S k') =>
           match delete_at k' rest (acl_of n d) with
-          | Some [] => if gp_refs_acl n d then TRefuse 2 else TOk (set_acl n [] d)
+          | Some [] => if referenced RAcl n d then TRefuse 2 else TOk (set_acl n [] d)
           | Some l => TOk (set_acl n l d)
           | None => TRefuse 3
           end
@@ -125,34 +145,50 @@ Definition texec (d : tdev) (w : words) : tres :=
       end
   | ["clear"; "configure"; "access-list"; n] =>
       if negb (vhas n (td_acls d)) then TRefuse 3
-      else if gp_refs_acl n d then TRefuse 2
-      else TOk (tupd d (vremove n (td_acls d)) (td_gps d) (td_tgs d) TTop)
+      else if referenced RAcl n d then TRefuse 2
+      else TOk (tupd d (vremove n (td_acls d)) (td_pools d) (td_gps d) (td_tgs d) (td_users d) TTop)
+  | "ip" :: "local" :: "pool" :: n :: def =>
+      TOk (tupd d (td_acls d) (vset n def (td_pools d)) (td_gps d) (td_tgs d) (td_users d) TTop)
+  | "no" :: "ip" :: "local" :: "pool" :: n :: def =>
+      match vlookup n (td_pools d) with
+      | Some def' => if negb (words_eqb def def') then TRefuse 3
+                     else if referenced RPool n d then TRefuse 2
+                     else TOk (tupd d (td_acls d) (vremove n (td_pools d)) (td_gps d) (td_tgs d) (td_users d) TTop)
+      | None => TRefuse 3
+      end
   | ["group-policy"; n; "internal"] =>
-      TOk (tupd d (td_acls d) (if vhas n (td_gps d) then td_gps d else vset n [] (td_gps d)) (td_tgs d) TTop)
+      TOk (tupd d (td_acls d) (td_pools d) (if vhas n (td_gps d) then td_gps d else vset n [] (td_gps d)) (td_tgs d) (td_users d) TTop)
   | ["group-policy"; n; "attributes"] =>
-      if vhas n (td_gps d) then TOk (tupd d (td_acls d) (td_gps d) (td_tgs d) (TGp n)) else TRefuse 3
+      if vhas n (td_gps d) then TOk (tmode_set d (TGp n)) else TRefuse 3
   | ["clear"; "configure"; "group-policy"; n] =>
       if negb (vhas n (td_gps d)) then TRefuse 3
-      else if tg_refs_gp n d then TRefuse 2
-      else TOk (tupd d (td_acls d) (vremove n (td_gps d)) (td_tgs d) TTop)
+      else if referenced RGp n d then TRefuse 2
+      else TOk (tupd d (td_acls d) (td_pools d) (vremove n (td_gps d)) (td_tgs d) (td_users d) TTop)
+  | ["username"; n; "nopassword"] =>
+      TOk (tupd d (td_acls d) (td_pools d) (td_gps d) (td_tgs d) (if vhas n (td_users d) then td_users d else vset n [] (td_users d)) TTop)
+  | ["username"; n; "attributes"] =>
+      if vhas n (td_users d) then TOk (tmode_set d (TUser n)) else TRefuse 3
+  | ["clear"; "configure"; "username"; n] =>
+      if vhas n (td_users d) then TOk (tupd d (td_acls d) (td_pools d) (td_gps d) (td_tgs d) (vremove n (td_users d)) TTop) else TRefuse 3
   | ["tunnel-group"; n; "type"; ty] =>
-      TOk (tupd d (td_acls d) (td_gps d)
-                (vset n (ty, match vlookup n (td_tgs d) with Some (_, secs) => secs | None => [] end) (td_tgs d)) TTop)
+      TOk (tupd d (td_acls d) (td_pools d) (td_gps d)
+                (vset n (ty, match vlookup n (td_tgs d) with Some (_, secs) => secs | None => [] end) (td_tgs d)) (td_users d) TTop)
   | ["tunnel-group"; n; sec] =>
       if negb (is_section sec) then TRefuse 6
-      else if vhas n (td_tgs d) then TOk (tupd d (td_acls d) (td_gps d) (td_tgs d) (TTg n sec)) else TRefuse 3
+      else if vhas n (td_tgs d) then TOk (tmode_set d (TTg n sec)) else TRefuse 3
   | ["no"; "tunnel-group"; n; sec] =>
       if negb (is_section sec) then TRefuse 6
       else match vlookup n (td_tgs d) with
            | Some (ty, secs) =>
-               if vhas sec secs then TOk (tupd d (td_acls d) (td_gps d) (vset n (ty, vremove sec secs) (td_tgs d)) TTop) else TRefuse 3
+               if vhas sec secs then TOk (tupd d (td_acls d) (td_pools d) (td_gps d) (vset n (ty, vremove sec secs) (td_tgs d)) (td_users d) TTop) else TRefuse 3
            | None => TRefuse 3
            end
   | ["clear"; "configure"; "tunnel-group"; n] =>
-      if vhas n (td_tgs d) then TOk (tupd d (td_acls d) (td_gps d) (vremove n (td_tgs d)) TTop) else TRefuse 3
+      if vhas n (td_tgs d) then TOk (tupd d (td_acls d) (td_pools d) (td_gps d) (vremove n (td_tgs d)) (td_users d) TTop) else TRefuse 3
   | "clear" :: _ => TRefuse 6
   | "group-policy" :: _ => TRefuse 6
   | "tunnel-group" :: _ => TRefuse 6
+  | "username" :: _ => TRefuse 6
   | _ => tsub d w
   end.
 
@@ -170,43 +206,44 @@ Fixpoint tprefix (d : tdev) (cs : list words) (k : nat) : tdev :=
   | _, _ => d
   end.
 
-(* ---- oracle: per tunnel-group its type and its attribute lines with the references expanded ---- *)
-Definition expand_gp_line (d : tdev) (l : words) : string :=
-  match l with
-  | ["vpn-filter"; "value"; a] =>
-      "vpn-filter [" ++ match vlookup a (td_acls d) with Some ls => join ";" (map (join " ") ls) | None => "?" ++ a end ++ "]"
+(* ---- oracle: per tunnel-group and per user the attribute lines with the references expanded ---- *)
+Definition key_of (l : words) : string := match l with x :: _ => x | [] => "" end.
+Definition expand_leaf (d : tdev) (l : words) : string :=
+  match line_ref l with
+  | Some (RAcl, a) => key_of l ++ " [" ++ match vlookup a (td_acls d) with Some ls => join ";" (map (join " ") ls) | None => "?" ++ a end ++ "]"
+  | Some (RPool, p) => key_of l ++ " [" ++ match vlookup p (td_pools d) with Some def => join " " def | None => "?" ++ p end ++ "]"
   | _ => join " " l
   end.
 Definition gp_sem (d : tdev) (g : string) : string :=
   match vlookup g (td_gps d) with
-  | Some b => join ";" (sort_strings (map (expand_gp_line d) b))
+  | Some b => join ";" (sort_strings (map (expand_leaf d) b))
   | None => "?" ++ g
   end.
-Definition expand_tg_line (d : tdev) (l : words) : string :=
-  match l with
-  | ["default-group-policy"; g] => "default-group-policy {" ++ gp_sem d g ++ "}"
-  | _ => join " " l
+Definition expand_line (d : tdev) (l : words) : string :=
+  match line_ref l with
+  | Some (RGp, g) => key_of l ++ " {" ++ gp_sem d g ++ "}"
+  | _ => expand_leaf d l
   end.
 Definition tg_sem (d : tdev) (t : string * (string * list (string * block))) : string :=
   fst t ++ " type " ++ fst (snd t) ++ " :: " ++
-  join "|" (sort_strings (flat_map (fun s : string * block => map (fun l => fst s ++ ": " ++ expand_tg_line d l) (snd s)) (snd (snd t)))).
-Definition tsem (d : tdev) : list string := sort_strings (map (tg_sem d) (td_tgs d)).
+  join "|" (sort_strings (flat_map (fun s : string * block => map (fun l => fst s ++ ": " ++ expand_line d l) (snd s)) (snd (snd t)))).
+Definition user_sem (d : tdev) (u : string * block) : string :=
+  "user " ++ fst u ++ " :: " ++ join "|" (sort_strings (map (expand_line d) (snd u))).
+Definition tsem (d : tdev) : list string := sort_strings (map (tg_sem d) (td_tgs d) ++ map (user_sem d) (td_users d)).
 Definition tequiv (a b : tdev) : bool := strs_eqb (tsem a) (tsem b).
-
-(* objects nothing refers to (the next compare would remove them) *)
-Definition unreferenced (d : tdev) : list string :=
-  (map fst (filter (fun g : string * block => negb (tg_refs_gp (fst g) d)) (td_gps d)) ++
-   map fst (filter (fun a : string * list words => negb (gp_refs_acl (fst a) d)) (td_acls d)))%list.
 
 (* ---- rendering ---- *)
 Definition tr_acl (a : string * list words) : list string := map (fun l => "access-list " ++ fst a ++ " " ++ join " " l) (snd a).
+Definition tr_pool (p : string * words) : string := "ip local pool " ++ fst p ++ " " ++ join " " (snd p).
 Definition tr_gp (g : string * block) : list string :=
   ("group-policy " ++ fst g ++ " internal") :: ("group-policy " ++ fst g ++ " attributes") :: map (fun l => " " ++ join " " l) (snd g).
 Definition tr_tg (t : string * (string * list (string * block))) : list string :=
   ("tunnel-group " ++ fst t ++ " type " ++ fst (snd t)) ::
   flat_map (fun s : string * block => ("tunnel-group " ++ fst t ++ " " ++ fst s) :: map (fun l => " " ++ join " " l) (snd s)) (snd (snd t)).
+Definition tr_user (u : string * block) : list string :=
+  ("username " ++ fst u ++ " nopassword") :: ("username " ++ fst u ++ " attributes") :: map (fun l => " " ++ join " " l) (snd u).
 Definition trender (d : tdev) : list string :=
-  (flat_map tr_acl (td_acls d) ++ flat_map tr_gp (td_gps d) ++ flat_map tr_tg (td_tgs d))%list.
+  (flat_map tr_acl (td_acls d) ++ map tr_pool (td_pools d) ++ flat_map tr_gp (td_gps d) ++ flat_map tr_tg (td_tgs d) ++ flat_map tr_user (td_users d))%list.
 
 Record tcase := { tc_dev : tdev; tc_tgt : tdev; tc_cmds : list words }.
 Definition tjudge (c : tcase) :=
